@@ -472,8 +472,24 @@ func runLivePair(c *Ctx, r *RuleRun) {
 				}
 				return true
 			}
+			// a refusal reported in another shape (a struct field, an error) cannot be told from an acceptance here
+			unreadable := false
+			eachInstr(g, func(ins ssa.Instruction) {
+				iff, ok := ins.(*ssa.If)
+				if !ok {
+					return
+				}
+				if ex, ok := iff.Cond.(*ssa.Extract); ok && ex.Tuple == ssa.Value(s1) {
+					return
+				}
+				if derivesFrom(iff.Cond, func(x ssa.Value) bool { return x == ssa.Value(s1) }) || p.dependsOn(iff.Cond, func(x ssa.Value) bool { return x == ssa.Value(s1) }) {
+					unreadable = true
+				}
+			})
 			q := PathQuery{P: p, Fn: g, Starts: []ssa.Instruction{s1}, Avoid: done.Instr, Target: isReturn, EdgeOK: edgeOK}
-			if w := q.FindPath(); w != nil {
+			if unreadable {
+				r.Undecided(p.FnName(g), "commitMark Begin→Done", p.Pos(instrPos(s1)), "the caller branches on the oracle's answer in a form this rule cannot read (not a boolean result): which branch is the refusal is unknown")
+			} else if w := q.FindPath(); w != nil {
 				r.Viol(p.FnName(g), "commitMark Begin→Done", p.Pos(instrPos(s1)), "a commit timestamp begun on commitMark is not finished on this path: every later Begin() of a transaction waits forever", p.describePath(w)...)
 			} else {
 				r.Hold(p.FnName(g), "commitMark Begin→Done", p.Pos(instrPos(s1)), "every non-panicking path from the timestamp allocation to a return passes "+p.Pos(instrPos(s2)))
